@@ -376,6 +376,12 @@ def r10_sub_ids_spelled_alike(ctx):
     R.check(w == r, "C05.R10", "sub-id-spelling:writer-reader-agree", "subscription ids are stored and looked up in the same spelling", "the client stores subscription ids transformed by %s but looks them up transformed by %s" % (sorted(w) or "nothing", sorted(r) or "nothing"), None)
 
 
+def r11_response_attempt_unconditional(ctx):
+    """classification is by decoding, in a fixed order, never by sniffing the raw bytes (= C15.R9)"""
+    from . import c15
+    c15.r9_client_tries_response_first(ctx)
+
+
 def rarr_every_element(ctx):
     """an array message is processed element by element to the end"""
     from .common import array_elements_all_processed
@@ -389,7 +395,7 @@ def rcancel_receive_is_cancel_safe(ctx):
     read_task_receive_is_cancel_safe(ctx, "C05.CANCEL")
 
 
-RULES = [r1_classifier_agreement, r2_routing, r3_lag_and_close, r4_single_unsubscribe, r5_close_messages_are_not_lossy, r6_refused_insert_is_pure, r7_classifiers_are_plain, r8_client_builder_fields, r9_lagged_is_reported_as_lagged, r10_sub_ids_spelled_alike, rarr_every_element, rcancel_receive_is_cancel_safe]
+RULES = [r1_classifier_agreement, r2_routing, r3_lag_and_close, r4_single_unsubscribe, r5_close_messages_are_not_lossy, r6_refused_insert_is_pure, r7_classifiers_are_plain, r8_client_builder_fields, r9_lagged_is_reported_as_lagged, r10_sub_ids_spelled_alike, r11_response_attempt_unconditional, rarr_every_element, rcancel_receive_is_cancel_safe]
 
 LEVEL_TEXT = (
     "Structural necessary conditions of the client's notification demultiplexing decided from the type-checked program: "
